@@ -1,65 +1,38 @@
-// VERIF-REPLAY property=C16 harness=mutc_offbyone_int_arb file=mutc.rs
-// failed check: ""mutator result outside its documented contract""
+// VERIF-REPLAY property=C16 harness=mutc_offbyone_int_arb file=mutc.rs variant=-
+// failed check: [KANI_CHECK_ID_pickle_fuzzer.2144bc5e1feb0391::pickle_fuzzer_36] "mutator result outside its documented contract"
 // bounds: OffByOneMutator::mutate_int: wrapping +-1; every argument value; rate symbolic in [0,1]; fuzzer bytes 0..24
 // The values below are the SAT solver's assignment to every kani::any() of the harness; the test runs
 // the same harness body natively (real std/hashbrown/rand, no stubs) via `cargo kani playback`.
 #[test]
-fn kani_concrete_playback_mutc_offbyone_int_arb_16296763167706360311() {
+fn kani_concrete_playback_mutc_offbyone_int_arb_cbmc() {
     let concrete_vals: Vec<Vec<u8>> = vec![
-        // 1
         vec![1],
-        // 254
         vec![254],
-        // 254
         vec![254],
-        // 254
         vec![254],
-        // 254
         vec![254],
-        // 254
         vec![254],
-        // 254
         vec![254],
-        // 254
         vec![254],
-        // 254
         vec![254],
-        // 1
         vec![1],
-        // 1
         vec![1],
-        // 1
         vec![1],
-        // 1
         vec![1],
-        // 1
         vec![1],
-        // 1
         vec![1],
-        // 1
         vec![1],
-        // 1
         vec![1],
-        // 1
         vec![1],
-        // 1
         vec![1],
-        // 1
         vec![1],
-        // 1
         vec![1],
-        // 1
         vec![1],
-        // 1
         vec![1],
-        // 1
         vec![1],
-        // 24ul
         vec![24, 0, 0, 0, 0, 0, 0, 0],
-        // -2147483648
         vec![0, 0, 0, 128],
-        // 1
-        vec![255, 255, 255, 255, 255, 255, 239, 63],
+        vec![255, 255, 255, 255, 255, 255, 239, 63]
     ];
     kani::concrete_playback_run(concrete_vals, mutc_offbyone_int_arb);
 }
